@@ -418,7 +418,13 @@ def user_view(mc, probe_paths=()):
 
     grp(mc, "/")
     probes = []
+    datasets = {"/" + n for (n, kind, _, _) in a[1] if kind == "D"}
     for p in probe_paths:
+        segs = p.strip("/").split("/")
+        if any("/" + "/".join(segs[:i]) in datasets for i in range(1, len(segs))):
+            # a path running through a dataset is not a tree position (h5py: TypeError/False, IH5: ValueError)
+            probes.append((p, False, False))
+            continue
         inn = p in mc
         g = mc.get(p)
         probes.append((p, bool(inn), g is not None))
